@@ -136,4 +136,17 @@ theorem insert_good (threshold fuel : Nat) : GoodIns (Node.insert (R := RI) thre
         exact key _ q1 q2
       · exact key _ hn rfl
 
+theorem reorgFold_good (rect : RI) (threshold fuel : Nat) (l : List (Item RI)) (s : Node RI × List (Item RI))
+    (hg : Good s.1) (hr : s.1.rect = rect) (hne : rect.empty = false) :
+    Good (l.foldl (Tree.reorgStep rect threshold fuel) s).1 ∧ (l.foldl (Tree.reorgStep rect threshold fuel) s).1.rect = rect := by
+  induction l generalizing s with
+  | nil => exact ⟨hg, hr⟩
+  | cons c t ih =>
+    simp only [List.foldl_cons]
+    unfold Tree.reorgStep
+    split
+    · obtain ⟨a, b⟩ := insert_good threshold fuel s.1 c hg (by rw [hr]; exact hne)
+      exact ih (Node.insert threshold fuel s.1 c, s.2) a (by rw [b, hr])
+    · exact ih (s.1, s.2 ++ [c]) hg hr
+
 end QT
